@@ -7,5 +7,5 @@ unset GOTOOLCHAIN GOSUMDB || true
 mkdir -p evidence replays harness/bin
 (cd harness && cp /repo/go.sum . && go build -o bin/facts ./cmd/facts && ./bin/facts /repo "$(pwd)/../lean/PikoModel/Generated/Facts.lean")
 (cd lean && lake build PikoModel Proofs Props driver)
-(cd harness && sed "s#@H@#$(pwd)#g" overlay.json.tmpl > overlay.json && go build -tags verif -overlay overlay.json -o bin/h ./cmd/h)
+(cd harness && ./mkoverlay.py /repo && for d in cmd/h-*; do go build -tags verif -overlay overlay.json -o bin/$(basename $d) ./$d; done)
 echo setup ok
